@@ -375,3 +375,42 @@ Lemma binned_empty_background pred obs :
 Proof.
   unfold log_likelihood_poisson_binned. cbn [n0 ROps]. destruct pred; reflexivity.
 Qed.
+
+(** a histogram cut into two consecutive blocks of bins: the binned log-likelihood of the whole is the sum of the blocks'
+    (summation in blocks of any size gives the same number), the likelihood is the product *)
+Lemma combine_app2 {A B} (l1 l2 : list A) (m1 m2 : list B) : length l1 = length m1 ->
+  combine (l1 ++ l2) (m1 ++ m2) = combine l1 m1 ++ combine l2 m2.
+Proof.
+  revert m1; induction l1 as [|a l1 IH]; intros [|b m1] H; try discriminate; cbn; [reflexivity|].
+  f_equal. apply IH. injection H; auto.
+Qed.
+Lemma sum_app (a b : list R) : fold_right Rplus 0 (a ++ b) = fold_right Rplus 0 a + fold_right Rplus 0 b.
+Proof. induction a as [|x a IH]; cbn; [ring|]. rewrite IH. ring. Qed.
+Lemma bg_id (pred bg : list R) : length bg = length pred ->
+  (match bg with [] => repeat 0 (length pred) | _ => bg end) = bg.
+Proof. destruct bg; cbn; intros H; [rewrite <- H; reflexivity|reflexivity]. Qed.
+
+Lemma binned_blocks p1 o1 b1 p2 o2 b2 :
+  length o1 = length p1 -> length b1 = length p1 -> length o2 = length p2 -> length b2 = length p2 ->
+  exists l1 l2,
+    log_likelihood_poisson_binned ROps p1 o1 b1 = Ok l1 /\ log_likelihood_poisson_binned ROps p2 o2 b2 = Ok l2 /\
+    log_likelihood_poisson_binned ROps (p1 ++ p2) (o1 ++ o2) (b1 ++ b2) = Ok (l1 + l2) /\
+    likelihood_poisson_binned ROps (p1 ++ p2) (o1 ++ o2) (b1 ++ b2) = Ok (exp l1 * exp l2).
+Proof.
+  intros Ho1 Hb1 Ho2 Hb2.
+  assert (S1 : sizes_ok p1 o1 b1) by (split; [auto|right; auto]).
+  assert (S2 : sizes_ok p2 o2 b2) by (split; [auto|right; auto]).
+  assert (Hb : length (b1 ++ b2) = length (p1 ++ p2)) by (rewrite !app_length; congruence).
+  assert (S3 : sizes_ok (p1 ++ p2) (o1 ++ o2) (b1 ++ b2)) by (split; [rewrite !app_length; congruence|right; exact Hb]).
+  assert (E : log_likelihood_poisson_binned ROps (p1 ++ p2) (o1 ++ o2) (b1 ++ b2) =
+              Ok (fold_right Rplus 0 (map bin_ll (bins p1 o1 b1)) + fold_right Rplus 0 (map bin_ll (bins p2 o2 b2)))).
+  { rewrite (binned_log_is_sum _ _ _ S3). f_equal. unfold bins.
+    rewrite (bg_id _ _ Hb), (bg_id _ _ Hb1), (bg_id _ _ Hb2).
+    rewrite (combine_app2 p1 p2 o1 o2) by congruence.
+    rewrite combine_app2 by (rewrite combine_length, Ho1, Hb1; apply Nat.min_id).
+    rewrite map_app. apply sum_app. }
+  eexists; eexists. split; [apply (binned_log_is_sum _ _ _ S1)|]. split; [apply (binned_log_is_sum _ _ _ S2)|].
+  split; [exact E|]. unfold likelihood_poisson_binned. rewrite E. cbn [rbind nexp ROps]. rewrite exp_plus. reflexivity.
+Qed.
+Example binned_blocks_ex : exists l, log_likelihood_poisson_binned ROps ([1] ++ [2]) ([0%Z] ++ [0%Z]) ([0] ++ [1]) = Ok l.
+Proof. destruct (binned_blocks [1] [0%Z] [0] [2] [0%Z] [1] eq_refl eq_refl eq_refl eq_refl) as (l1 & l2 & _ & _ & H & _). eexists; exact H. Qed.
